@@ -12,13 +12,13 @@ vars == <<l, buf, pos, dmax0, live, exhausted, bad>>
 InSet(c, ds) == \E i \in 1..Len(ds) : ds[i] = c
 NulAt(b, p, lim) == LET S == {i \in p..lim : i <= Len(b) /\ b[i] = 0} IN IF S = {} THEN 0 ELSE CHOOSE i \in S : \A j \in S : i <= j
 RefStep(b, p, ds, nul) ==
-  LET nd == {i \in p..nul : ~InSet(b[i], ds) \/ i = nul}
+  LET nd == {i \in p..nul : i = nul \/ ~InSet(b[i], ds)}
       st == CHOOSE i \in nd : \A j \in nd : i <= j
-  IN IF st = nul THEN [tok |-> 0, b |-> b, pos |-> nul]
-     ELSE LET en == {i \in st..nul : InSet(b[i], ds) \/ i = nul}
+  IN IF st = nul THEN [tok |-> 0, b |-> b, pos |-> nul, hitend |-> TRUE]
+     ELSE LET en == {i \in st..nul : i = nul \/ InSet(b[i], ds)}
               e  == CHOOSE i \in en : \A j \in en : i <= j
-          IN IF e = nul THEN [tok |-> st, b |-> b, pos |-> nul]
-             ELSE [tok |-> st, b |-> [b EXCEPT ![e] = 0], pos |-> e + 1]
+          IN IF e = nul THEN [tok |-> st, b |-> b, pos |-> nul, hitend |-> TRUE]
+             ELSE [tok |-> st, b |-> [b EXCEPT ![e] = 0], pos |-> e + 1, hitend |-> FALSE]
 
 Init == l = 1 /\ buf = <<>> /\ pos = 0 /\ dmax0 = 0 /\ live = FALSE /\ exhausted = FALSE /\ bad = <<>>
 Reset(e) == /\ buf' = e.buf /\ pos' = 1 /\ dmax0' = e.dmax /\ live' = TRUE /\ exhausted' = FALSE /\ UNCHANGED bad
@@ -40,7 +40,10 @@ Judge(e) ==
      ELSE IF exhausted /\ e.ret = 0 /\ e.post = buf /\ BeyondSame(e)
              /\ (e.h = <<>> \/ (e.h = <<ESNULLP>> /\ e.pin = 0) \/ (e.h = <<ESZEROL>> /\ e.din = 0))
        THEN V(TRUE, "", "", buf, p, TRUE, TRUE)        \* after exhaustion: NULL forever (a report caused by the values the library stored is admitted)
-     ELSE IF nul = 0 THEN                           \* unterminated within the declared extent: error, nothing beyond dmax touched
+     ELSE IF p > dmax0 /\ e.ret = 0 /\ e.post = buf /\ ((e.h = <<ESZEROL>> /\ e.din = 0) \/ e.h = <<ESUNTERM>>)
+       THEN V(TRUE, "", "", buf, p, TRUE, TRUE)        \* the declared extent is used up (the library itself handed back *dmaxp = 0)
+     ELSE IF nul = 0 /\ LET r == RefStep(buf, p, e.delim, dmax0 + 1) IN r.hitend
+       THEN \* no terminator inside the declared extent and the scan runs off its end: error, nothing beyond dmax touched
         IF e.ret = 0 /\ e.h = <<ESUNTERM>> /\ e.errno = ESUNTERM /\ BeyondSame(e) /\ \A k \in 1..dmax0 : e.post[k] = buf[k] \/ e.post[k] = 0
         THEN V(TRUE, "", "", buf, p, FALSE, FALSE)
         ELSE IF dmax0 + 1 <= Len(buf) /\ buf[dmax0 + 1] = 0
@@ -50,6 +53,11 @@ Judge(e) ==
              THEN V(FALSE, "term_at_dmax", "Dev_tok_term_at_dmax", r.b, r.pos, FALSE, FALSE)
              ELSE V(FALSE, "unterminated_not_reported", "", buf, p, FALSE, FALSE)
         ELSE V(FALSE, "unterminated_not_reported", "", buf, p, FALSE, FALSE)
+     ELSE IF nul = 0 THEN    \* the token ends at a delimiter inside the declared extent: an ordinary step
+          LET r == RefStep(buf, p, e.delim, dmax0 + 1)
+              ok == e.ret = r.tok /\ e.post = r.b /\ e.h = <<>> /\ Bounds(e)
+          IN V(ok, IF e.ret # r.tok THEN "wrong_token" ELSE IF e.post # r.b THEN "wrong_buffer" ELSE IF e.h # <<>> THEN "handler" ELSE "bounds",
+               "", r.b, r.pos, TRUE, FALSE)
      ELSE LET r == RefStep(buf, p, e.delim, nul)
               ok == e.ret = r.tok /\ e.post = r.b /\ e.h = <<>> /\ Bounds(e)
           IN V(ok, IF e.ret # r.tok THEN "wrong_token" ELSE IF e.post # r.b THEN "wrong_buffer" ELSE IF e.h # <<>> THEN "handler" ELSE "bounds",
